@@ -310,7 +310,7 @@ class Gen:
                 fs = list(self.records[t[1]])
                 if rng.random() < 0.5:
                     rng.shuffle(fs)            # initialisers in an order different from the declaration
-                return {"k": "rec", "name": t[1], "fields": [{"n": fn, "e": self.maybe_probe(self.expr0(ft, env, d - 1, pure), pure, 0.6)} for fn, ft in fs]}
+                return {"k": "rec", "name": t[1], "fields": [{"n": fn, "e": self.maybe_probe(self.expr0(ft, env, d - 1, pure), pure, 0.6, ft)} for fn, ft in fs]}
             if k == "uni":
                 cn, pt = rng.choice(self.unions[t[1]])
                 if pt is not None and tname(pt) == "uni" and d < 2:
@@ -840,7 +840,7 @@ def kernels(start_id):
         fields = [{"n": f, "e": _pi(T(i), i)} for i, f in enumerate(perm)]
         add([r], [], {"stmts": [{"k": "let", "x": "r", "e": {"k": "rec", "name": rn, "fields": fields}}],
                       "fin": {"k": "bin", "op": "+", "a": {"k": "field", "e": {"k": "var", "x": "r"}, "n": "A"},
-                              "b": {"k": "bin", "op": "*", "a": {"k": "field", "e": {"k": "var", "x": "r"}, "n": "b"}, "b": {"k": "int", "v": 2}}}})
+                              "b": {"k": "bin", "op": "+", "a": {"k": "field", "e": {"k": "var", "x": "r"}, "n": "b"}, "b": {"k": "field", "e": {"k": "var", "x": "r"}, "n": "b"}}}})
     for op in ["+", "-", "*", "<", ">", "<=", ">=", "=", "<>"]:
         add([], [], {"stmts": [], "fin": {"k": "bin", "op": op, "a": _pi(T(1), 3), "b": _pi(T(2), 4)}}, BOOL if op in ("<", ">", "<=", ">=", "=", "<>") else INT)
     add([], [], {"stmts": [], "fin": {"k": "tuple", "es": [_pi(T(1), 1), _pi(T(2), 2), _pb(T(3), True)]}}, ("tup", (INT, INT, BOOL)))
